@@ -23,6 +23,8 @@ func main() {
 		{Name: "rb-beyond-3pg-3ops-exhaustive", Cfg: "MC_DBFile_rb_beyond.cfg", Timeout: 10 * time.Minute, MaxKeep: core.Pick(args, 500, 0)},
 		{Name: "rb-drop-recreate-3pg-4ops-exhaustive", Cfg: "MC_DBFile_drop.cfg", Timeout: 10 * time.Minute, MaxKeep: core.Pick(args, 300, 0)},
 		{Name: "rb-block-edges-3pg-3ops", Cfg: "MC_DBFile_rb_L3.cfg", Timeout: 10 * time.Minute, MaxKeep: core.Pick(args, 300, 0), Layouts: []sim.Layout{sim.L3(512), sim.L2(512)}},
+		{Name: "journal-mode-switches-2pg-5ops", Cfg: "MC_DBFile_modeswitch.cfg", Timeout: 10 * time.Minute, MaxKeep: core.Pick(args, 500, 6000)},
+		{Name: "rb-free-page-reuse-3pg-3ops", Cfg: "MC_DBFile_rb_free.cfg", Timeout: 10 * time.Minute, MaxKeep: core.Pick(args, 400, 0)},
 		{Name: "deep-simulation-4pg-8ops", Cfg: "MC_DBFile_sim.cfg", Simulate: true, Num: core.Pick(args, 40, 400), Depth: 200, Timeout: 10 * time.Minute, MaxKeep: core.Pick(args, 150, 3000)},
 	})
 }
